@@ -236,7 +236,7 @@ PrattOpPairs(G, Pd, Fo, Own, ri, strict) == PrattOpPairsN(G, Pd, Fo, Own, ri, st
 NarrowE012(G, Pd, Fo, Own) ==
   UNION {IF IsPrattRule(G, ri) THEN PrattOpPairsN(G, Pd, Fo, Own, ri, TRUE, TRUE) ELSE {} : ri \in RuleIds(G)}
 
-NodeConflicts(G, Pd, Fo, Own, n, strict) ==
+NodeConflicts(G, F, Pd, Fo, Own, n, strict) ==
   LET k == K(G, n)  c == C(G, n) IN
   CASE k = "alt" ->
          LET ri == RuleOfBody(G, n) IN
@@ -245,16 +245,18 @@ NodeConflicts(G, Pd, Fo, Own, n, strict) ==
                          ELSE AltPairsMay(G, Pd, NudBranches(G, ri)))
               \cup PrattOpPairs(G, Pd, Fo, Own, ri, strict)
          ELSE IF strict THEN AltPairsMust(G, Pd, c) ELSE AltPairsMay(G, Pd, c)
+    \* "a loop or option body can be empty or shares a token with what may follow it";
+    \* a predicate can settle a shared token, it cannot settle an empty body.
     [] k \in {"star", "plus"} ->
-         IF c # <<>> /\ ~Guarded(G, c[1]) /\ Pd[c[1]] \cap Fo[n] # {}
+         IF c # <<>> /\ Pd[c[1]] \cap Fo[n] # {} /\ (~Guarded(G, c[1]) \/ EPS \in F[c[1]])
          THEN {<<"E013", n>>} ELSE {}
     [] k = "opt" ->
-         IF c # <<>> /\ ~Guarded(G, c[1]) /\ Pd[c[1]] \cap Fo[n] # {}
+         IF c # <<>> /\ Pd[c[1]] \cap Fo[n] # {} /\ (~Guarded(G, c[1]) \/ EPS \in F[c[1]])
          THEN {<<"E014", n>>} ELSE {}
     [] OTHER -> {}
 
-ConflictsMust(G, Pd, Fo, Own) == UNION {NodeConflicts(G, Pd, Fo, Own, n, TRUE) : n \in Nodes(G)}
-ConflictsMay(G, Pd, Fo, Own)  == UNION {NodeConflicts(G, Pd, Fo, Own, n, FALSE) : n \in Nodes(G)}
+ConflictsMust(G, F, Pd, Fo, Own) == UNION {NodeConflicts(G, F, Pd, Fo, Own, n, TRUE) : n \in Nodes(G)}
+ConflictsMay(G, F, Pd, Fo, Own)  == UNION {NodeConflicts(G, F, Pd, Fo, Own, n, FALSE) : n \in Nodes(G)}
 
 (***************************************************************************)
 (* Dominators by brute force and recovery sets (C14).                      *)
